@@ -314,3 +314,40 @@ func init() {
 			restarts: []uint32{8},
 		})
 }
+
+func init() {
+	corpus = append(corpus, corpusCase{
+		// (seeded change C01-m5) contracts whose manifests restrict permissions in ways only the stack-item round trip of
+		// the manifest could change — an EMPTY method list, an explicit list next to an empty one, a group descriptor —
+		// exercised AFTER a restart of replica B (its contract cache is rebuilt by Manifest.FromStackItem): forwarded
+		// calls, a NEF-only update (re-serialises the cached manifest object), getContract
+		name: "restricted-permission-restart-call", csize: 2, vcount: 1, extra: 2, blocks: 10,
+		gen: func(c *caseRun, h uint32) []*op {
+			w := c.w
+			mg := descV{kind: 1, hash: nativehashes.ContractManagement}
+			switch h {
+			case 1:
+				return compact(c.setupGasOnly())
+			case 2:
+				callee := w.opDeployV(0, &manV{perms: []permV{{desc: descV{kind: 0}, wild: true}}, safe: []string{"ver"}, groups: []int{1}})
+				none := w.opDeployV(1, &manV{perms: []permV{{desc: descV{kind: 0}}}}) // "methods": []
+				upd := w.opDeployV(2, &manV{perms: []permV{{desc: mg, methods: []string{"update"}}, {desc: descV{kind: 0}}}, trustsWild: true})
+				return compact(callee, none, upd)
+			case 3:
+				return compact(w.opForward(1, 0, "put"), w.opForward(1, 0, "ver"), w.opForward(0, 1, "put"), w.opForward(2, 0, "put"))
+			case 4: // B restarted before this block
+				return compact(w.opForward(1, 0, "put"), w.opForward(2, 0, "del"), w.opForward(0, 2, "put"))
+			case 5:
+				return compact(w.opUpdateKeep(2), w.opUpdateKeep(1))
+			case 6:
+				return compact(w.opForward(2, 0, "put"), w.opForward(1, 0, "get"))
+			case 7: // B restarted again
+				return compact(w.opDeployV(1, &manV{perms: []permV{{desc: descV{kind: 2, key: 1}, methods: []string{"put"}}, {desc: descV{kind: 1, hash: w.slots[0].hash}}}, trusts: []descV{mg}}))
+			case 8:
+				return compact(w.opForward(1, 0, "put"), w.opForward(1, 0, "del"), w.opForward(1, 2, "put"), w.opDestroy(2))
+			}
+			return nil
+		},
+		restarts: []uint32{4, 7, 9},
+	})
+}
